@@ -125,6 +125,35 @@ def scenario(tier):
     return fn
 
 
+def long_history(tier):
+    ROOT = "A001[C002]"  # a folder name with glob metacharacters
+
+    def fn(b, sym):
+        b.mkfile(ROOT + "/clip.mov", 1)
+        b.mkfile(ROOT + "/sub/x.txt", 2)
+        nested = sym.flag("nested_history_at_sub")
+        if nested:
+            r = b.run("create", root=ROOT + "/sub", h=["md5"])
+            b.require(r.exit == 0, "setup-create", str(r))
+        if sym.flag("same_second"):
+            b.tick = 0
+        n = sym.choose("runs", [10, 11, 12] if tier == "quick" else [10, 11, 12, 13, 14])
+        roots = [ROOT] + ([ROOT + "/sub"] if nested else [])
+        for i in range(n):
+            before = state(b, roots)
+            now = b.current_now()
+            sf = (i % 3 == 2)
+            r = b.run("create", root=ROOT, h=["md5"], sf=[ROOT + "/sub/x.txt"]) if sf else b.run("create", root=ROOT, h=["md5"])
+            b.require(r.exit == 0 and r.exc is None, "create-exit-code", "run %d: %s" % (i, r))
+            check_step(b, before, state(b, roots), set(roots), now, "run %d of %d" % (i + 1, n))
+        r = b.run("info", root=ROOT)
+        b.require(r.exit == 0, "reload-ok", str(r))
+        gens = [int(m.group(1)) for m in (re.match(r"\s+Generation (\d+) ", l) for l in r.out) if m]
+        k = len(b.manifest_names(ROOT))
+        b.require(gens[:k] == list(range(1, k + 1)), "reload-generations-1..n", "%s (n=%d)" % (gens, k))
+    return fn
+
+
 def harnesses(tier):
     steps_n = 2 if tier == "quick" else 3
     return [Harness("c06-append-only", scenario(tier), frontier=6, budget_s=2400,
@@ -133,4 +162,8 @@ def harnesses(tier):
                          "entry (c4 of the final bytes), reload gives 1..n" % steps_n,
                     bounds={"runs": steps_n, "layouts": "flat | child at A/AA | children at A and B", "edits": "none|alter|delete|add per step",
                             "modes": "folder | -sf root file | -sf deep file"},
-                    outside=["generation numbers above the run bound (the :04d / \\\\d{4,} boundary at 9999 -> 10000 is not reached)"])]
+                    outside=["generation numbers above the run bound (the :04d / \\\\d{4,} boundary at 9999 -> 10000 is not reached)"]),
+            Harness("c06-long", long_history(tier), frontier=3, budget_s=1200,
+                    what="10-12 (thorough -14) consecutive create / create -sf runs in a folder named 'A001[C002]' (flat or with a nested history, "
+                         "same or different clock second): two-digit generation numbers, chain order, names",
+                    bounds={"runs": "10-12 / 10-14", "root folder name": "A001[C002]"}, outside=[])]
